@@ -42,6 +42,7 @@ type FuncSpec struct {
 	Promises  []*Clause // assumed at call sites, not proved (listed as trusted)
 	Writes    []*Clause
 	HasWrites bool
+	Keeps     []*Clause // locations a frameless callee leaves unchanged
 	Pure      bool
 	Trusted   bool // body not verified (listed as assumption)
 	Loops     map[int]*LoopSpec
@@ -60,6 +61,7 @@ type Define struct {
 	Body   ast.Expr
 	Text   string
 	Where  string
+	Opaque bool // applied through an uninterpreted symbol with a definitional axiom (one symbol per heap state)
 }
 
 type Abstract struct {
@@ -326,12 +328,13 @@ func (c *Contracts) Load(path string, defaultPkg string) error {
 			for _, t := range strings.Fields(strings.ReplaceAll(rest, ",", " ")) {
 				c.Immutable[t] = true
 			}
-		case "define":
+		case "define", "odefine":
 			d, err := parseDefine(rest)
 			if err != nil {
 				return fail(err)
 			}
 			d.Pkg, d.Where = pkg, where
+			d.Opaque = word == "odefine"
 			if _, dup := c.Defines[d.Name]; dup {
 				return fail(fmt.Errorf("duplicate define %s", d.Name))
 			}
@@ -530,6 +533,20 @@ func (c *Contracts) Load(path string, defaultPkg string) error {
 					cur.Asserts = append(cur.Asserts, cl)
 				case "panics":
 					cur.Panics = cl
+				}
+			case "keeps":
+				// frameless callee (everything may change) except the listed locations: used for interface methods whose
+				// implementations are unknown but cannot reach a per-session object's ghost state
+				for _, part := range splitTop(rest, ',') {
+					part = strings.TrimSpace(part)
+					if part == "" {
+						continue
+					}
+					e, err := parseSpecExpr(part)
+					if err != nil {
+						return fail(err)
+					}
+					cur.Keeps = append(cur.Keeps, &Clause{Kind: "keeps", Text: part, Expr: e, Where: where})
 				}
 			case "writes", "lwrites":
 				var cls []*Clause
